@@ -95,6 +95,9 @@ func (in *Interp) symIndexLoad(c *ArrayV, idx *Term) Value {
 func (in *Interp) store(p PtrV, v Value, pos token.Pos) {
 	if in.trackAcc {
 		in.recordAccess(p, true, pos)
+		if p.obj != nil && p.obj.heap {
+			in.publish(v, 0)
+		}
 	}
 	parent, last := in.resolve(p, pos)
 	v = copyVal(v)
